@@ -136,6 +136,9 @@ CsfThm2.vos CsfThm2.vok CsfThm2.required_vos: CsfThm2.v Base.vos Units.vos Units
 Instr2.vo Instr2.glob Instr2.v.beautified Instr2.required_vo: Instr2.v Base.vo Units.vo UnitsThm.vo Contents.vo Container.vo ContainerThm.vo ContainerThm2.vo Dilute.vo Instr.vo Solve.vo Plate.vo Prog.vo
 Instr2.vio: Instr2.v Base.vio Units.vio UnitsThm.vio Contents.vio Container.vio ContainerThm.vio ContainerThm2.vio Dilute.vio Instr.vio Solve.vio Plate.vio Prog.vio
 Instr2.vos Instr2.vok Instr2.required_vos: Instr2.v Base.vos Units.vos UnitsThm.vos Contents.vos Container.vos ContainerThm.vos ContainerThm2.vos Dilute.vos Instr.vos Solve.vos Plate.vos Prog.vos
+InstrSol.vo InstrSol.glob InstrSol.v.beautified InstrSol.required_vo: InstrSol.v Base.vo Units.vo UnitsThm.vo Contents.vo Container.vo ContainerThm.vo ContainerThm2.vo Dilute.vo Instr.vo Instr2.vo Solve.vo Plate.vo Prog.vo
+InstrSol.vio: InstrSol.v Base.vio Units.vio UnitsThm.vio Contents.vio Container.vio ContainerThm.vio ContainerThm2.vio Dilute.vio Instr.vio Instr2.vio Solve.vio Plate.vio Prog.vio
+InstrSol.vos InstrSol.vok InstrSol.required_vos: InstrSol.v Base.vos Units.vos UnitsThm.vos Contents.vos Container.vos ContainerThm.vos ContainerThm2.vos Dilute.vos Instr.vos Instr2.vos Solve.vos Plate.vos Prog.vos
 HeapRefine.vo HeapRefine.glob HeapRefine.v.beautified HeapRefine.required_vo: HeapRefine.v Base.vo Units.vo Contents.vo Container.vo ContainerThm.vo Plate.vo PlateThm.vo Dilute.vo Solve.vo Heap.vo HeapThm.vo ConfigThm.vo
 HeapRefine.vio: HeapRefine.v Base.vio Units.vio Contents.vio Container.vio ContainerThm.vio Plate.vio PlateThm.vio Dilute.vio Solve.vio Heap.vio HeapThm.vio ConfigThm.vio
 HeapRefine.vos HeapRefine.vok HeapRefine.required_vos: HeapRefine.v Base.vos Units.vos Contents.vos Container.vos ContainerThm.vos Plate.vos PlateThm.vos Dilute.vos Solve.vos Heap.vos HeapThm.vos ConfigThm.vos
@@ -148,9 +151,9 @@ Props/C12.vos Props/C12.vok Props/C12.required_vos: Props/C12.v Base.vos Units.v
 Props/C18.vo Props/C18.glob Props/C18.v.beautified Props/C18.required_vo: Props/C18.v Base.vo Units.vo UnitsThm.vo Contents.vo Container.vo ContainerThm.vo ContainerThm2.vo Plate.vo ConfigThm.vo PlateThm.vo Dilute.vo Solve.vo Prog.vo ConfigThm2.vo Recipe.vo RecipeThm.vo ConfigThm3.vo
 Props/C18.vio: Props/C18.v Base.vio Units.vio UnitsThm.vio Contents.vio Container.vio ContainerThm.vio ContainerThm2.vio Plate.vio ConfigThm.vio PlateThm.vio Dilute.vio Solve.vio Prog.vio ConfigThm2.vio Recipe.vio RecipeThm.vio ConfigThm3.vio
 Props/C18.vos Props/C18.vok Props/C18.required_vos: Props/C18.v Base.vos Units.vos UnitsThm.vos Contents.vos Container.vos ContainerThm.vos ContainerThm2.vos Plate.vos ConfigThm.vos PlateThm.vos Dilute.vos Solve.vos Prog.vos ConfigThm2.vos Recipe.vos RecipeThm.vos ConfigThm3.vos
-Props/C19.vo Props/C19.glob Props/C19.v.beautified Props/C19.required_vo: Props/C19.v Base.vo Units.vo UnitsThm.vo Contents.vo Container.vo Instr.vo ContainerThm.vo Dilute.vo Instr2.vo
-Props/C19.vio: Props/C19.v Base.vio Units.vio UnitsThm.vio Contents.vio Container.vio Instr.vio ContainerThm.vio Dilute.vio Instr2.vio
-Props/C19.vos Props/C19.vok Props/C19.required_vos: Props/C19.v Base.vos Units.vos UnitsThm.vos Contents.vos Container.vos Instr.vos ContainerThm.vos Dilute.vos Instr2.vos
+Props/C19.vo Props/C19.glob Props/C19.v.beautified Props/C19.required_vo: Props/C19.v Base.vo Units.vo UnitsThm.vo Contents.vo Container.vo Instr.vo ContainerThm.vo Dilute.vo Instr2.vo Solve.vo InstrSol.vo
+Props/C19.vio: Props/C19.v Base.vio Units.vio UnitsThm.vio Contents.vio Container.vio Instr.vio ContainerThm.vio Dilute.vio Instr2.vio Solve.vio InstrSol.vio
+Props/C19.vos Props/C19.vok Props/C19.required_vos: Props/C19.v Base.vos Units.vos UnitsThm.vos Contents.vos Container.vos Instr.vos ContainerThm.vos Dilute.vos Instr2.vos Solve.vos InstrSol.vos
 Props/C06.vo Props/C06.glob Props/C06.v.beautified Props/C06.required_vo: Props/C06.v Base.vo Units.vo UnitsThm.vo GenBase.vo gen/UnitsTie.vo
 Props/C06.vio: Props/C06.v Base.vio Units.vio UnitsThm.vio GenBase.vio gen/UnitsTie.vio
 Props/C06.vos Props/C06.vok Props/C06.required_vos: Props/C06.v Base.vos Units.vos UnitsThm.vos GenBase.vos gen/UnitsTie.vos
